@@ -68,14 +68,20 @@ def _guard_ok(cond, pol, allowed, allow_opaque):
 def check_formulas(ctx):
     prog = ctx.prog
     table = load_table()
-    classes = [c for c in prog.subclasses("verif.metric.ObsFcstBased", "verif.metric") if "_compute_from_obs_fcst" in c.methods]
+    # every concrete metric, with the formula it actually runs (its own or the one it inherits from another metric)
+    base = prog.cls("verif.metric.ObsFcstBased")
+    classes = []
+    for c in prog.subclasses("verif.metric.ObsFcstBased", "verif.metric"):
+        hit = prog.lookup_method(c, "_compute_from_obs_fcst")
+        if hit is not None and hit[0] is not base:
+            classes.append(c)
     names = set(c.name for c in classes)
     missing = sorted(set(table) - names)
     ctx.need(not missing, "reference rows without a class: %s" % missing)
     obs = S("obs")
     for c in sorted(classes, key=lambda c: c.name):
-        m = c.module
-        f = c.methods["_compute_from_obs_fcst"]
+        owner, f = prog.lookup_method(c, "_compute_from_obs_fcst")
+        m = owner.module
         site = c.qual + "._compute_from_obs_fcst"
         loc = prog.loc(m, f)
         # C05.3 argsort used arithmetically (as a rank) - pattern rule, also for loop bodies
